@@ -21,7 +21,7 @@ RULE = ("Each case runs a real hio Server/ServerTls with an echo loop and two Cl
         "bytes or handshake records of that connection were in flight. Distinct: digest of (config, fault, executed actions).")
 COMPONENTS = dict(real=["hio.core.tcp.clienting.Client/ClientTls", "hio.core.tcp.serving.Server/ServerTls/Remoter/RemoterTls", "OpenSSL engine"],
                   stub=["kernel sockets (FakeSocket)", "SSLSocket glue (SimSSLSocket)"])
-ASSUMPTIONS = ["an injected connection-level errno means that connection is really gone (both ends are reset)",
+ASSUMPTIONS = ["an injected connection-level errno means that connection is really gone (both ends are reset) in half of the cases; in the other half the call fails once and the socket stays usable, so that only the endpoint's reaction to that one call can mark it",
                "errnos are injected at every call kind the statement lists, including combinations a real kernel rarely produces (EPIPE on recv)"]
 PROBES = ["fault_in_handshake_client", "fault_in_handshake_server", "fault_on_send", "fault_on_recv", "peer_fin", "peer_rst",
           "client_vanishes_mid_handshake", "errno_EPIPE", "ssl_eof", "sibling_echo_completed"]
@@ -71,6 +71,7 @@ def run_case(tape, tier):
                 ops = ["tls_send", "tls_recv", "tls_handshake"]
             fault["op"] = tape.pick("op", ops)
             fault["idx"] = tape.draw("call_idx", 8 if tier == "quick" else 12)
+            fault["one_shot"] = tape.flag("one_shot", 1, 2)     # the call fails once, the socket stays usable
         else:
             fault["at_step"] = tape.draw("at_step", 40)
     bs = tape.pick("bs", [8096, 64, 7])
@@ -92,6 +93,7 @@ def run_case(tape, tier):
         lab.make_client()
         if fault["kind"] == "errno":
             net.errno_plan[(fault["op"], fault["side"])] = [fault["idx"], fault["code"]]
+            net.errno_one_shot = bool(fault.get("one_shot"))
         sent = [bytearray(), bytearray()]
         nxt = [0, 0]
         remoters = {}        # sid -> remoter (server side objects ever seen)
@@ -242,12 +244,23 @@ def run_case(tape, tier):
                     res.comparisons += 1
                     if not marked:
                         res.violate("not-marked", "server side met %s but no remoter is cutoff/aborted" % (cfg["fault"],))
-                    # the affected client is the one whose peer socket was reset
+                    else:
+                        # the very remoter whose socket failed must be the marked one (or closed and dropped)
+                        for rm in lab.remoters:
+                            raw = getattr(rm.cs, "sock", rm.cs) if rm.cs is not None else None
+                            if raw is not None and raw.got_injected and raw.state != "closed" and not (rm.cutoff or getattr(rm, "aborted", False)):
+                                res.violate("not-marked", "server side met %s on the connection from %s but that remoter is cutoff=%s aborted=%s" % (
+                                    cfg["fault"], rm.ca, rm.cutoff, getattr(rm, "aborted", None)))
+                    # the affected client is the one whose peer socket was reset / got the injected error
                     for i in (0, 1):
                         c = lab.clients[i]
                         raw = getattr(c.cs, 'sock', c.cs) if c.cs is not None else None
-                        if raw is not None and raw.reset:
+                        if raw is not None and (raw.reset or (raw.peer is not None and raw.peer.got_injected)):
                             affected = i
+                    if affected is None:
+                        for s_ in net.sockets:
+                            if s_.got_injected and s_.peer is not None and s_.peer.owner in ("client0", "client1"):
+                                affected = int(s_.peer.owner[-1])
             elif fault["kind"] in ("peer_fin", "peer_rst", "vanish_handshake") and peer_event_done:
                 # the server side remoter of client 0 must be cutoff (or aborted / never created)
                 res.comparisons += 1
